@@ -5,6 +5,8 @@ import random
 import shutil
 import subprocess
 import tempfile
+import os as _os
+REPO = _os.environ.get("VERIF_REPO", "/repo")
 
 from .. import adapter, build, events, tlc
 from adcgen.tensor_names import tensor_names as tn
@@ -24,7 +26,7 @@ MENU = ["energy2", "amp2ph", "amp2pphh", "ovl2", "m1phph", "t2_2", "psi1",
 SPEC_MENU = MENU[:12]
 
 
-def run_worker(reqs, hashseed=0, pkg_root="/repo", timeout=900):
+def run_worker(reqs, hashseed=0, pkg_root=REPO, timeout=900):
     env = dict(os.environ)
     env["PYTHONHASHSEED"] = str(hashseed)
     env["PYTHONPATH"] = f"{pkg_root}:{VERIF}"
@@ -148,7 +150,7 @@ def registry_replay(chk, quick):
         with os.fdopen(fd, "w") as fh:
             fh.write("\n".join(lines) + "\n")
         env = dict(os.environ)
-        env["PYTHONPATH"] = f"/repo:{VERIF}"
+        env["PYTHONPATH"] = f"{REPO}:{VERIF}"
         try:
             pr = subprocess.run(["/venv/bin/python", "-m",
                                  "harness.registry_replay", path], env=env,
@@ -260,7 +262,7 @@ def run(chk):
         chk.add_sample({"history": sample[0], "seeds": seeds})
     # tensor-name configurations: scratch copies of the package; one with
     # single-letter names, one with names of different lengths
-    cfg = json.load(open("/repo/adcgen/tensor_names.json"))
+    cfg = json.load(open(os.path.join(REPO, "adcgen/tensor_names.json")))
     configs = [
         dict(cfg, eri="W", fock="h", gs_amplitude="s", orb_energy="x",
              sym_orb_denom="Z", operator="g", gs_density="r"),
@@ -278,7 +280,7 @@ def run(chk):
     for newcfg, rqs in zip(configs, name_reqs):
         scratch = tempfile.mkdtemp(prefix="adcgen_names_")
         try:
-            shutil.copytree("/repo/adcgen", os.path.join(scratch, "adcgen"))
+            shutil.copytree(os.path.join(REPO, "adcgen"), os.path.join(scratch, "adcgen"))
             cfgp = os.path.join(scratch, "adcgen", "tensor_names.json")
             json.dump(newcfg, open(cfgp, "w"))
             rename = {newcfg[k]: cfg[k] for k in cfg if newcfg[k] != cfg[k]}
